@@ -1,4 +1,4 @@
 SPECIFICATION CSpec
-CONSTANTS MaxChrom = 0  MaxUnits = 0  Kinds = {}  EndKinds = {}  Defects = {}  MaxDefects = 0  MinUnits = 0  Pattern <- NoPattern
+CONSTANTS MaxChrom = 0  MaxUnits = 0  Kinds = {}  EndKinds = {}  Defects = {}  MaxDefects = 0  MinUnits = 0  Pattern <- NoPattern  Wholes = {}
 POSTCONDITION AllConsumed
 CHECK_DEADLOCK FALSE
